@@ -3,7 +3,13 @@
    object graph dumped from the REAL committed base store by harness/cmd/realm - one file
    realm_dump_<l>.json per committed transaction (this run evaluates l = lo..hi of realm_dump_n.json):
      {l, beh, step, ext: [ids that exist outside the dumped packages],
-      objs: {id: {ispkg, rc, owner ("" = none), esc, hashok, refs: [ids, with multiplicity]}}}
+      objs: {id: {ispkg, counted, rc, owner ("" = none), esc, hashok, refs: [ids, with multiplicity]}}}
+   Every 10th line (and the first one of every realm instance) holds the WHOLE graph of the realm
+   packages (all objects counted); the other lines hold every DATA object (heap items, structs,
+   arrays - counted) plus the code objects (blocks, functions, package values - which only
+   data objects and each other can refer to them... and which no data object of this realm
+   alphabet refers to) that own or are referred to by a data object, kept uncounted as the
+   anchors of ownership and reachability.
    The dumped packages are all realm packages of the chain under test, so every reference to
    an object of a realm package is in the dump (DESIGN 6.C calibration: references to objects
    of immutable packages are not counted in the target and are only checked for existence).
@@ -34,7 +40,9 @@ DCnt(p, o) == Cardinality({j \in 1..Len(DRefs(p)) : DRefs(p)[j] = o})
 DOut(p) == {DRefs(p)[j] : j \in 1..Len(DRefs(p))}
 DExt == {g.ext[j] : j \in 1..Len(g.ext)}
 
-I == INSTANCE RealmInv WITH Ids <- DIds, Counted <- DIds, NoId <- "", Ext <- DExt,
+DCounted == {o \in DIds : g.objs[o].counted}
+DRoots == {o \in DIds : g.objs[o].ispkg \/ ~g.objs[o].counted}
+I == INSTANCE RealmInv WITH Ids <- DIds, Counted <- DCounted, RootIds <- DRoots, NoId <- "", Ext <- DExt,
        IsPkg <- DIsPkg, Rc <- DRc, Owner <- DOwner, Esc <- DEsc, HashOK <- DHashOK, Cnt <- DCnt, InDeg <- DInDeg, Out <- DOut
 
 Eval ==
